@@ -346,6 +346,22 @@ def accent(mac, ch, braced=False):
     return N(s, [('S', 0, ACCENTS[(mac, ch)])], spans=[(0, len(s))])
 
 
+# ------------------------------------------------------------------ glossaries
+
+GLSDEF = ('\\gls@defglossaryentry{ab}{name={AB},text={alpha beta},plural={alphas},'
+          'description={a desc}}')
+
+
+def glsdefs():
+    """one line of a .glsdefs data base: leaves no text"""
+    return N(GLSDEF, spans=[(0, len(GLSDEF))])
+
+
+def gls(name='gls', text='alpha beta'):
+    return place('\\' + name + '{{{0}}}', [H('ab')], ev_order=[esc(''.join(text.split()))],
+                 hidden_parts=(0,))
+
+
 # ------------------------------------------------------------------ maths
 
 INLINE = {'en': ['B-B-B', 'C-C-C', 'D-D-D', 'E-E-E', 'F-F-F', 'G-G-G'],
